@@ -13,7 +13,7 @@ for id in $ids; do
   git -C $R apply /verif/seeded/$id/patch.diff || { echo "{\"id\": \"$id\", \"rc\": \"patch does not apply\"}" | tee -a seeded/matrix.jsonl; continue; }
   find $R/src -name "*.rs" -exec touch {} +
   o=$(./check $p --tier quick 2>&1); rc=$?
-  git -C $R checkout -- .
+  git -C $R checkout -- .; git -C $R clean -fdq -- src docs     # a patch may add files
   first=$(echo "$o" | grep -a -A1 "^VIOLATION" | sed -n 2p | python3 -c 'import sys; print(sys.stdin.buffer.read().decode("utf-8", "replace")[:160].replace("\n", " "), end="")' | tr '"\\' "' ")
   echo "{\"id\": \"$id\", \"check\": \"$p\", \"rc\": $rc, \"head\": \"$(git -C $R rev-parse --short HEAD)\", \"first\": \"$first\"}" | tee -a seeded/matrix.jsonl
 done
